@@ -39,8 +39,22 @@ Example C19_example :
   = [1; 1; 9; 2].
 Proof. vm_compute. reflexivity. Qed.
 
+(* builds that fail after their id was drawn (a body the codec cannot marshal): whatever calls fail, the ids of the
+   successful requests of a fresh context are a sublist of 1, 2, 3, ... in issue order, hence pairwise distinct *)
+Theorem C19_successful_ids_in_issue_order : forall codec cs fl counters x,
+  (forall c, In c cs -> (c_ctx c < length counters)%nat) -> nth_error counters x = Some 0 ->
+  sublist (successful_request_ids x cs fl (run_calls codec counters cs)) (draws 0 (length (filter (is_request_on x) cs))).
+Proof. exact successful_ids_sublist. Qed.
+Theorem C19_successful_ids_distinct : forall codec cs fl counters x,
+  (forall c, In c cs -> (c_ctx c < length counters)%nat) -> nth_error counters x = Some 0 ->
+  N.of_nat (length (filter (is_request_on x) cs)) < 4294967296 ->
+  NoDup (successful_request_ids x cs fl (run_calls codec counters cs)).
+Proof. exact successful_ids_distinct. Qed.
+
 Print Assumptions C19_ids_linearised.
 Print Assumptions C19_fresh_context_counts_from_one.
 Print Assumptions C19_ids_pairwise_distinct.
 Print Assumptions C19_request_id_not_overridable.
 Print Assumptions C19_response_push_keep_caller_id.
+Print Assumptions C19_successful_ids_in_issue_order.
+Print Assumptions C19_successful_ids_distinct.
